@@ -56,11 +56,8 @@ def run(chk, prog):
                       (r"^common::socks::SocksRequest::<T>::read_v5$", r"SocksAuthServer::auth_v5$")]:
         g = prog.body_of(prog.one(pat))
         ac = [c for c in g.calls if re.search(call, c.path or "")]
-        oks = []
-        for b in g.reachable:
-            for st in g.stmts(b):
-                if st["k"] == "assign" and st["lhs"][0] == 0 and st["rv"]["k"] == "agg" and st["rv"].get("variant") == "Ok":
-                    oks.append(b)
+        from ..flow import result_blocks
+        oks = result_blocks(g, "Ok")
         ok = bool(ac) and bool(oks) and all(must_pass(g, [0], [c.bb for c in ac], [o]) for o in oks)
         chk.instance("auth-dominates", "%s:%s" % (g.file, g.line), "%s obtains the credentials through %s on every Ok path" % (g.path, call), ok)
         if not ok:
